@@ -3,6 +3,7 @@ CONSTANTS
   SpinSync = FALSE
   ObliqOn = FALSE
   NVals = 2
+  Bug = "none"
 INVARIANT C13_Fresh_Layered
 INVARIANT SyncHolds
 CHECK_DEADLOCK FALSE
